@@ -485,6 +485,13 @@ func (r *Run) callStatic(fr *Frame, st *State, reach Term, callee *ssa.Function,
 		}
 		r.warn("inline depth exceeded at %s", funcKey(callee))
 	}
+	if inRepo && len(callee.Blocks) > 0 && fr.inlineDepth < maxInlineDepth && !r.onInlineStack(fr, callee) && !hasLoops(callee) {
+		// a helper of the library without a contract (for instance one a refactoring has just extracted): expand it in
+		// place rather than forget everything at the call
+		r.warn("call to %s without contract: expanded in place", funcKey(callee))
+		r.nextAutoInline = true
+		return r.inlineCall(fr, st, reach, callee, binds, args)
+	}
 	if inRepo {
 		r.warn("call to %s without contract: everything havocked", funcKey(callee))
 	} else {
@@ -1739,4 +1746,17 @@ func (r *Run) assertFact(t Term) {
 		return
 	}
 	r.ctx.Assert(t)
+}
+
+func (r *Run) onInlineStack(fr *Frame, fn *ssa.Function) bool {
+	for f := fr; f != nil; f = f.parent {
+		if f.fn == fn {
+			return true
+		}
+	}
+	return false
+}
+
+func hasLoops(fn *ssa.Function) bool {
+	return len(analyzeCFG(fn).loops) > 0
 }
